@@ -1220,8 +1220,17 @@ impl<T: Serialize + for<'de> Deserialize<'de> + Clone + PartialEq + Send + Sync 
             }
         }
 
-        // Sort by timestamp (oldest first for replay)
-        wal_files.sort_by(|a, b| a.file_name().cmp(&b.file_name()));
+        // Sort for replay: rotated files oldest first (their names carry the rotation
+        // time), the live log last. Plain name order would replay "state.wal", which
+        // holds the newest records, before every "wal.<time>.wal".
+        let live_name = format!("state.{WAL_EXTENSION}");
+        wal_files.sort_by(|a, b| {
+            let a_live = a.file_name() == Some(std::ffi::OsStr::new(&live_name));
+            let b_live = b.file_name() == Some(std::ffi::OsStr::new(&live_name));
+            a_live
+                .cmp(&b_live)
+                .then_with(|| a.file_name().cmp(&b.file_name()))
+        });
 
         Ok(wal_files)
     }
